@@ -105,3 +105,11 @@ pub mod csc {
         A.findnz()
     }
 }
+
+/// step-level items of the interior point loop (C05/C06): the loop enums and the
+/// feature-gated accessors that live next to the private fields they expose
+pub mod step {
+    pub use crate::solver::core::{ScalingStrategy, StepDirection};
+    pub use crate::solver::implementations::default::verif_hooks_kktsystem as kktsystem;
+    pub use crate::solver::implementations::default::verif_hooks_residuals as residuals;
+}
